@@ -19,7 +19,10 @@ EXPLANATION = (
   "changes are flushed into stored/undo actions. In DocActions.ModifyColumn (R2): the old column "
   "object is obtained before the schema is touched, the new one after the last rebuild, and the "
   "raw value of every row id of the table is copied across on every normal path, so alt-text and "
-  "errors survive until the conversion above. Not decided: the converted values themselves "
+  "errors survive until the conversion above. R3: a column's convert() hands the value it "
+  "was given to the type's conversion unmodified, apart from shapes it singles out with an "
+  "isinstance test of that value (lookups, lists, records): a value of any other shape is not "
+  "normalised first, so what the type would turn into alt-text stays alt-text. Not decided: the converted values themselves "
   "(usertypes.*.do_convert is C22).")
 
 
@@ -27,6 +30,7 @@ def check(run, repo, tier):
   w = World(repo)
   r1_user_level(run, w)
   r2_doc_level(run, w)
+  r3_convert_unmodified(run, w)
 
 
 def _name_of_assign(n):
@@ -405,6 +409,76 @@ def r2_doc_level(run, w):
            cfg.path(sorted(sw)[0], {cfg.exit.id}, removed={lp.id}, after=True)))
 
 
+# ------------------------------------------------------------------------------------------ R3
+def r3_convert_unmodified(run, w):
+  R3 = run.rule("C23-R3", "Column.convert passes the value it was given to the type's conversion "
+                "unmodified unless an isinstance test singled its shape out", floor=2)
+  n_seen = 0
+  for ci in sorted(w.repo.classes.values(), key=lambda c: c.qualname):
+    if ci.module.name != "column" or not w.typer.is_column(ci.qualname) or \
+        "convert" not in ci.methods:
+      continue
+    fi = ci.methods["convert"]
+    if len(fi.params()) != 2:
+      raise AnalysisError("%s: convert(self, value) expected" % fi.qualname)
+    fn = H.inlined_fn(w, fi.qualname)
+    cfg = fn.cfg
+    du = DefUse(fn)
+    p = fi.params()[1]
+    dele = []
+    for (n, c, nm) in fn.calls():
+      if isinstance(c.func, ast.Attribute) and c.func.attr == "convert":
+        rv = c.func.value
+        if (isinstance(rv, ast.Call) and dotted(rv.func) == "super") or \
+            H.canon(fn, rv) == "self.type_obj":
+          dele.append((n, c))
+    if not dele:
+      raise AnalysisError("%s: no delegation to super().convert / self.type_obj.convert found"
+                          % fi.qualname)
+    n_seen += 1
+    # a value of no singled-out shape: every isinstance test of the value (or of a local that is
+    # still the value) is false
+    def plain(e):
+      if isinstance(e, ast.Call) and dotted(e.func) == "isinstance" and len(e.args) == 2 and \
+          isinstance(e.args[0], ast.Name):
+        return False
+      return None
+    reach = H.reach_assuming(cfg, {cfg.entry.id}, plain)
+    for (n, c) in dele:
+      if n.id not in reach:
+        continue
+      args = H.norm(w, fn, c).args
+      if len(args) != 1:
+        raise AnalysisError("%s: cannot bind the argument of %s" % (fi.qualname, short(c)))
+      a = args[0]
+      wrapped = not isinstance(a, ast.Name)
+      modified = []
+      if isinstance(a, ast.Name):
+        names = {a.id}
+        D = set(du.defs.get(a.id, set()))
+        for d in D:
+          # a rebinding that reaches the delegation on a path with every isinstance test false
+          v = H.def_value(cfg, d)
+          if isinstance(v, ast.Name) and v.id == p and a.id != p:
+            continue              # a plain copy of the value
+          if n.id in H.reach_assuming(cfg, set(cfg.normal_succ(d)), plain, removed=D - {d}) and \
+              d in reach:
+            modified.append(d)
+        if a.id != p and not any(isinstance(H.def_value(cfg, d), ast.Name) and
+                                 H.def_value(cfg, d).id == p for d in D):
+          wrapped = True
+      ok = not wrapped and not modified
+      run.ob(R3, fi.qualname, short(c), "a value whose shape the method does not single out "
+             "reaches the type's conversion exactly as given (no clean-up or normalisation "
+             "first: the type decides what is valid and what becomes alt-text)", ok, fi=fi,
+             node=c, witness=None if ok else (
+               "the argument is %s" % short(a, 50) if wrapped else
+               "the value is rebound at line %d on a path without any isinstance test holding"
+               % cfg.nodes[modified[0]].lineno))
+  if n_seen < 2:
+    raise AnalysisError("fewer than two column classes with a convert() method found")
+
+
 D = "sandbox/grist/docactions.py"
 U = "sandbox/grist/useractions.py"
 VARIANTS = [
@@ -452,6 +526,13 @@ VARIANTS = [
    "        new_column.set(row_id, new_value)\n        changes.append((row_id, orig_value, new_column.raw_get(row_id)))",
    "        new_column.set(row_id, new_value)\n        if new_column.raw_get(row_id) == new_value:\n          changes.append((row_id, orig_value, new_column.raw_get(row_id)))",
    "C23-R1"),
+  ("ref-convert-cleans-up-first", "sandbox/grist/column.py",
+   "    return super(ReferenceColumn, self).convert(val)",
+   "    return super(ReferenceColumn, self).convert(self._clean_up_value(val))", "C23-R3"),
+  ("ref-convert-cleans-up-in-place", "sandbox/grist/column.py",
+   "      val = val[0] if val else 0\n    return super(ReferenceColumn, self).convert(val)",
+   "      val = val[0] if val else 0\n    val = self._clean_up_value(val)\n    return super(ReferenceColumn, self).convert(val)",
+   "C23-R3"),
   ("copy-drops-alttext", D,
    "      new_column.set(row_id, old_column.raw_get(row_id))",
    "      new_column.set(row_id, old_column.safe_get(row_id))", "C23-R2"),
